@@ -130,6 +130,11 @@ func Positions(n int) []Position {
 // Signers of the tested commit.
 var Signers = []string{"K1", "K2", "K3", "nobody", "altered-tree", "altered-parent"}
 
+// JoinSigners are the signers of a tested join commit (two parents, empty operation pack, as merge()
+// writes it): the first key in force, a stranger's key, nobody, the key in force with the commit
+// altered afterwards.
+var JoinSigners = []string{"in-force", "K3", "nobody", "altered-tree", "altered-parent"}
+
 // signingAuthor is the author identity with SigningKey overridden: the harness decides who signs.
 type signingAuthor struct {
 	*identity.Identity
@@ -154,7 +159,13 @@ func resolvers(repo repository.ClockedRepo) entity.Resolvers {
 
 // Build creates repository A under dir with the history, the spacer commits that move the
 // logical clock, and the tested commit.
-func Build(dir string, keys Keys, history []string, pos Position, signer string) (*Built, error) {
+//
+// kind "" : the tested commit carries an operation (a comment by the author).
+// kind "join": the tested commit is what merge() writes to join two branches: two parents, an
+// operation pack without operations in the author's name, the next value of the edit clock, signed
+// with the author's signing key if there is one (same exported calls as operationPack.Write:
+// StoreData, StoreTree, StoreSignedCommit / StoreCommit). The two branches are commits by bob.
+func Build(dir string, keys Keys, history []string, pos Position, signer string, kind string) (*Built, error) {
 	vctl.SetActor("writer")
 	repo, err := repository.InitGoGitRepo(filepath.Join(dir, "A"), world.Namespace)
 	if err != nil {
@@ -228,9 +239,9 @@ func Build(dir string, keys Keys, history []string, pos Position, signer string)
 		signKey = keys[signer]
 		out.SignedBy = signer
 	case "nobody":
-	case "altered-tree", "altered-parent":
+	case "altered-tree", "altered-parent", "in-force":
 		if len(inForce) == 0 {
-			out.Skip = "no key in force: nothing to alter"
+			out.Skip = "no key in force"
 			return out, nil
 		}
 		signKey = keys[inForce[0]]
@@ -238,14 +249,18 @@ func Build(dir string, keys Keys, history []string, pos Position, signer string)
 	default:
 		return nil, fmt.Errorf("unknown signer %s", signer)
 	}
+	ref := "refs/bugs/" + b.Id().String()
 	tested := func() error {
+		if kind == "join" {
+			return join(repo, out, ref, b.Id(), alice, bob, signKey, now)
+		}
 		if _, _, err := bug.AddComment(b, signingAuthor{alice, signKey}, now(), "the tested commit", nil, nil); err != nil {
 			return err
 		}
 		if err := b.Commit(repo); err != nil {
 			return err
 		}
-		h, err := repo.ResolveRef("refs/bugs/" + b.Id().String())
+		h, err := repo.ResolveRef(ref)
 		out.Tested = h
 		return err
 	}
@@ -300,6 +315,74 @@ func Build(dir string, keys Keys, history []string, pos Position, signer string)
 	return out, nil
 }
 
+// join writes two concurrent commits by bob on top of the current head and joins them with a commit
+// in alice's name, exactly as merge() scenario 5 does.
+func join(repo *repository.GoGitRepo, out *Built, ref string, id entity.Id, alice, bob *identity.Identity, signKey *identity.Key, now func() int64) error {
+	base, err := repo.ResolveRef(ref)
+	if err != nil {
+		return err
+	}
+	var heads []repository.Hash
+	for i := 1; i <= 2; i++ {
+		if err := repo.UpdateRef(ref, base); err != nil {
+			return err
+		}
+		br, err := bug.Read(repo, id)
+		if err != nil {
+			return err
+		}
+		if _, _, err := bug.AddComment(br, signingAuthor{bob, nil}, now(), fmt.Sprintf("branch %d", i), nil, nil); err != nil {
+			return err
+		}
+		if err := br.Commit(repo); err != nil {
+			return err
+		}
+		h, err := repo.ResolveRef(ref)
+		if err != nil {
+			return err
+		}
+		heads = append(heads, h)
+	}
+	editTime, err := repo.Increment("bugs-edit")
+	if err != nil {
+		return err
+	}
+	empty, err := repo.StoreData([]byte{})
+	if err != nil {
+		return err
+	}
+	pack, err := json.Marshal(struct {
+		Author     identity.Interface `json:"author"`
+		Operations []json.RawMessage  `json:"ops"`
+	}{Author: alice})
+	if err != nil {
+		return err
+	}
+	blob, err := repo.StoreData(pack)
+	if err != nil {
+		return err
+	}
+	tree, err := repo.StoreTree([]repository.TreeEntry{
+		{ObjectType: repository.Blob, Hash: empty, Name: "version-4"},
+		{ObjectType: repository.Blob, Hash: blob, Name: "ops"},
+		{ObjectType: repository.Blob, Hash: empty, Name: fmt.Sprintf("edit-clock-%d", editTime)},
+	})
+	if err != nil {
+		return err
+	}
+	var h repository.Hash
+	if signKey != nil {
+		h, err = repo.StoreSignedCommit(tree, signKey.PGPEntity(), heads...)
+	} else {
+		h, err = repo.StoreCommit(tree, heads...)
+	}
+	if err != nil {
+		return err
+	}
+	out.Tested = h
+	return repo.UpdateRef(ref, h)
+}
+
 // alter rewrites the tested commit after it was signed, keeping the signature header: either its
 // tree (the comment text inside the operation pack) or its parent (the filler commit is skipped).
 func alter(b *Built, how string) error {
@@ -329,6 +412,7 @@ func alter(b *Built, how string) error {
 				data, _ := io.ReadAll(rd)
 				rd.Close()
 				data = bytes.Replace(data, []byte("the tested commit"), []byte("the altered commit"), 1)
+				data = bytes.Replace(data, []byte(`"ops":null`), []byte(`"ops":[]`), 1) // join commit: still an empty pack, other bytes
 				o := r.Storer.NewEncodedObject()
 				o.SetType(plumbing.BlobObject)
 				w, _ := o.Writer()
@@ -353,6 +437,10 @@ func alter(b *Built, how string) error {
 		}
 		n.TreeHash = th
 	case "altered-parent":
+		if len(c.ParentHashes) == 2 {
+			n.ParentHashes = []plumbing.Hash{c.ParentHashes[1], c.ParentHashes[0]} // join commit: parents swapped
+			break
+		}
 		p, err := r.CommitObject(c.ParentHashes[0])
 		if err != nil {
 			return err
@@ -525,6 +613,33 @@ type Expected struct {
 	Valid   bool     `json:"signature_valid_under_a_key_in_force"`
 	Signed  bool     `json:"signed"`
 	AtBound bool     `json:"at_version_time"`
+	Parents int      `json:"parents_of_tested_commit"`
+}
+
+// packAuthor reads the author id of the operation pack of a commit.
+func packAuthor(repo repository.RepoData, c repository.Commit) (string, error) {
+	entries, err := repo.ReadTree(c.TreeHash)
+	if err != nil {
+		return "", err
+	}
+	for _, e := range entries {
+		if e.Name == "ops" {
+			data, err := repo.ReadData(e.Hash)
+			if err != nil {
+				return "", err
+			}
+			var p struct {
+				Author struct {
+					Id string `json:"id"`
+				} `json:"author"`
+			}
+			if err := json.Unmarshal(data, &p); err != nil {
+				return "", err
+			}
+			return p.Author.Id, nil
+		}
+	}
+	return "", fmt.Errorf("no ops entry")
 }
 
 // Expect evaluates the reference on the stored data: every commit of the bug must be acceptable.
@@ -542,9 +657,16 @@ func Expect(b *Built) (Expected, error) {
 	for _, v := range versions {
 		exp.Times = append(exp.Times, v.Time)
 	}
-	// all commits of the bug (a chain)
-	h := b.Tested
-	for {
+	// all commits of the bug
+	seen := map[repository.Hash]bool{}
+	stack := []repository.Hash{b.Tested}
+	for len(stack) > 0 {
+		h := stack[len(stack)-1]
+		stack = stack[:len(stack)-1]
+		if seen[h] {
+			continue
+		}
+		seen[h] = true
 		c, err := repo.ReadCommit(h)
 		if err != nil {
 			return exp, err
@@ -553,7 +675,14 @@ func Expect(b *Built) (Expected, error) {
 		if err != nil {
 			return exp, err
 		}
-		keys := KeysInForce(versions, T)
+		author, err := packAuthor(repo, c)
+		if err != nil {
+			return exp, err
+		}
+		var keys []string
+		if author == b.Author.String() { // bob never declares a key
+			keys = KeysInForce(versions, T)
+		}
 		ok := len(keys) == 0
 		valid := false
 		for _, k := range keys {
@@ -571,6 +700,7 @@ func Expect(b *Built) (Expected, error) {
 		if h == b.Tested {
 			exp.T, exp.InForce, exp.Valid = T, len(keys), valid
 			exp.Signed = c.Signature != nil
+			exp.Parents = len(c.Parents)
 			for _, v := range versions[1:] {
 				if v.Time == T {
 					exp.AtBound = true
@@ -580,10 +710,7 @@ func Expect(b *Built) (Expected, error) {
 		if !ok {
 			exp.Accept = false
 		}
-		if len(c.Parents) == 0 {
-			break
-		}
-		h = c.Parents[0]
+		stack = append(stack, c.Parents...)
 	}
 	return exp, nil
 }
